@@ -31,6 +31,7 @@ RULE = (
     "frame results of generated scenarios evaluated by the real manager (1..3 scenes x 1..6 frames, ego or map frame, all "
     "policies, FP-labelled ground truth mixes) added to a real PerceptionAnalyzer3D with 1 / 3 / 9 area divisions; non-trivial = "
     "table with at least one paired row and one unpaired row; distinct = (frame id, task, divisions, statuses present, #scenes, matched-FP present?)"
+    " Later additions: table row pairs are assigned to the frames' items by identity (scene, frame, status, ids, labels), not by row position; pickle round trips; read-only views; pooled lists with repeated frame numbers."
 )
 ASSUMPTIONS = ["ground-truth uuids are unique inside a frame", "yaw-only rotations"]
 DECIDING = ["analyzer.tables_judged", "analyzer.rows_checked", "analyzer.paired_rows", "C19.status.TP", "C19.status.FP", "C19.status.TN", "C19.status.FN", "C19.matched_fp_rows", "get_object_status.judged", "C19.error_arrays_checked", "C19.summaries_checked", "C19.selections_checked", "C19.map_frame_tables", "C19.analyses_with_selections", "C19.ego2map_checked", "C19.pickle_roundtrips", "analyzer.clears", "C19.area_rows_checked", "C19.combined_selections_checked", "C19.read_only_views_used"]
